@@ -20,5 +20,5 @@ NoPanicT == P => X.outcome \notin {"panic", "wedge"} /\ X.panic = ""
 VerdictT == P => X.outcome \in {Verdict(c) : c \in Cands} \cup {"panic", "wedge"}
 \* "... or makes it allocate beyond the protocol's size limits": a message is at most 10 MiB; handling it (decoding, the reply) stays within
 \* a small multiple; a reply is at most the soft response limit (2 MiB) plus one item
-AllocT == P => X.alloc <= 134217728 /\ X.replyMax <= 4194304 /\ X.ms < 20000
+AllocT == P => X.alloc <= 134217728 /\ X.replyMax <= 4194304 /\ X.ms < 600000
 =============================================================================
